@@ -332,6 +332,7 @@ REPLAY_BINS = {
     "C12": [("c11_build", [])],
     "C14": [("c14_seq", [])],
     "C15": [("c_sched", [], ["C15"])],
+    "C16": [("c16_edges", [])],
     "C17": [("c17_info", ["--features", "graph_info"])],
     "C20": [("c_sched", [], ["C20"])],
 }
